@@ -21,9 +21,9 @@ VARIANT = "asan"
 TIMEOUT = 900
 
 RULE = ("two real threads on the real ThreadLink under a forced schedule. Rings ThreadLink(MM,n) with MM in "
-        "{16,17,18,20,24,30,32,34,62}, n in 2..8 (N = MM*n <= 160, N mod 4 in {0,1,2,3} so messages wrap at every offset). "
+        "{16,17,18,20,24,30,32,34,62}, n in 2..8 (N = MM*n <= 186, N mod 4 in {0,1,2,3} so messages wrap at every offset). "
         "Writer scripts: raw_write / writeArray / write of OSC messages (integer, string and BLOB arguments, blob contents any bytes) of every size 8..MM+12 (step 4) incl. longer "
-        "than MaxMsg; stream wrapfield: on rings whose size is no multiple of 4 (30x3, 34x3, 62x2, 17x3 ...) filler messages are written and read until the next "
+        "than MaxMsg; stream wrapfield: on rings whose size is no multiple of 4 (30x3, 34x3, 62x3, 45x3, 17x3 ...) filler messages are written and read until the next "
         "message - a blob message or a bundle - starts where the ring's end falls 1..3 bytes into a blob's size field / its tag string / its address / a bundle "
         "element's size, sequentially and under hook-level schedules; reader scripts: hasNext, hasNextLookahead, guarded read, guarded read_lookahead. Streams: seq "
         "(operations in a random total order, sizes aimed at free space -4/0/+4), ilv (random hook-level schedules "
@@ -110,7 +110,8 @@ def bundle(msgs):
 RINGS = [(16, 2), (16, 3), (16, 4), (17, 3), (17, 5), (18, 3), (18, 4), (20, 2), (20, 5),
          (24, 3), (24, 4), (32, 2), (32, 3), (32, 4), (16, 8), (20, 8), (30, 3), (34, 3), (62, 2)]
 # rings whose size is no multiple of 4: only there a 4-byte field of a message can straddle the ring's end
-WRAP_RINGS = [(30, 3), (34, 3), (62, 2), (17, 3), (17, 5), (18, 3), (18, 4), (30, 2), (22, 5), (26, 3), (33, 2), (35, 3)]
+WRAP_RINGS = [(30, 3), (34, 3), (17, 3), (17, 5), (18, 3), (22, 5), (26, 3), (33, 2), (35, 3), (37, 3), (38, 3), (41, 3), (45, 3), (62, 3)]
+assert all((mm * n) % 4 for mm, n in WRAP_RINGS)
 
 def field_msg(rng, MM, ident):
     """a message of at most MM bytes with a blob argument (or a one/two element bundle) and the offsets of the
